@@ -88,6 +88,15 @@ def gen_case(rng, cid):
         ds.append(type_def(True, 'Sites', [], [vftable([], [fn(True, 'v0', [], [SELF, arg('a', pick()), arg('b', pick())], pick() if rng.random() < 0.5 else None)])]))
         impls.append(impl('Sites', [], [fn(True, 'm0', [a_int('address', 0x10001000)], [MUTSELF, arg('a', pick())], pick())]))
         xvals.append(xval(True, 'g_site', pick(), [a_int('address', 0x10002000)]))
+        # an extern value typed by the GENERATED vftable struct of a type of this module; a module import may offer a hand-written
+        # type of the same name, which has lower precedence (extern values are resolved after every type, generated ones included)
+        xvals.append(xval(True, 'g_vt', ty_cptr(ty_id('SitesVftable')), [a_int('address', 0x10003000)]))
+        modimps = [list(u[1:]) for u in uses if list(u[1:]) in [pp for (pp, _, _) in mods]]
+        if modimps and rng.random() < 0.6:
+            q = rng.choice(modimps)
+            for (pp, dl, _) in mods:
+                if pp == q and not any(d_[2] == 'SitesVftable' for d_ in dl):
+                    dl.append(type_def(True, 'SitesVftable', [a_ident('packed')], [field(True, 'x', ty_arr(ty_id('u8'), 3))]))
         if rng.random() < 0.6:
             # base in another module which defines clashing names as well
             bp = ['zbase%d' % rng.randint(0, 9)]
@@ -145,6 +154,9 @@ def judge(c, impl, model):
     defs = {}
     for (mp, file, m) in modules_of(c):
         defs[tuple(mp)] = {def_name(d): d for d in m_defs(m)}
+        for d in m_defs(m):
+            if def_is_type(d) and any(tag(st_) == 'vftable' for st_ in type_stmts(d)):
+                defs[tuple(mp)].setdefault(def_name(d) + 'Vftable', None)      # the generated struct is an item of the module
     own = list(find(c, 'observe')[1][1:])
     m = [mm for (mp, f, mm) in modules_of(c) if mp == own][0]
     uses = m_uses(m)
